@@ -137,3 +137,14 @@ Proof. vm_compute. repeat split. discriminate. Qed.
 
 Lemma okw_init : okw (init_world [] ROk None).
 Proof. constructor; cbn; congruence. Qed.
+
+Lemma go_c07_ends_only_own : forall cf t w v w' v' res es,
+  run_scope go_shape cf t w v = (w', v', res, es) ->
+  w_next w <= w_next w' /\ xid_range (w_next w) (w_next w') (sp_xids es).
+Proof. intros. eapply all_own; eauto using go_shape_ok. Qed.
+
+Lemma go_c07_never_ends_joined_any : forall cf t w v w' v' res es,
+  g_xid v < w_next w ->
+  run_scope go_shape cf t w v = (w', v', res, es) ->
+  ~ In (g_xid v) (sp_xids es).
+Proof. intros. eapply c07_never_ends_joined_any_world; eauto using go_shape_ok. Qed.
